@@ -5,12 +5,18 @@ V = os.path.dirname(os.path.dirname(os.path.abspath(__file__)))
 def mut(name, what, expect, *edits, outdir=None):
     out = [f"# what: {what}\n"] + [f"# expect: {e}\n" for e in expect]
     assert len(edits) % 3 == 0
+    cur = {}
+    order = []
     for i in range(0, len(edits), 3):
         file, old, new = edits[i:i+3]
+        if file not in cur:
+            cur[file] = open(os.path.join("/repo", file)).read()
+            order.append(file)
+        assert cur[file].count(old) == 1, f"{name}: old text occurs {cur[file].count(old)} times in {file}"
+        cur[file] = cur[file].replace(old, new)
+    for file in order:
         src = open(os.path.join("/repo", file)).read()
-        assert src.count(old) == 1, f"{name}: old text occurs {src.count(old)} times in {file}"
-        dst = src.replace(old, new)
-        out += list(difflib.unified_diff(src.splitlines(True), dst.splitlines(True), "a/" + file, "b/" + file))
+        out += list(difflib.unified_diff(src.splitlines(True), cur[file].splitlines(True), "a/" + file, "b/" + file))
     p = os.path.join(outdir or os.path.join(V, "mutants"), name + ".patch")
     open(p, "w").write("".join(out))
     return p
